@@ -159,3 +159,23 @@ reg('C04', True, 'other',
     'assigned after construction and the cell is created from wallpaper.family.',
     'Relies on C16 (tables are the named groups) and C14 (one lattice map). Does not observe placements.',
     'literal-table agreement (group x family x degrees of freedom) + symbolic execution + field-write scan')
+
+reg('C12', True, 'other',
+    'CLAUSES. Symbolic execution of the two loop-free leaf predicates: Atom2::intersects is exactly |a.p-b.p|^2 < (a.r+b.r)^2 '
+    '(normal-form identity); Line2::intersects has a parallel guard d_s x d_o == 0 -> false, exactly one accepting path whose '
+    'condition set is {0<=ua, ua<=1, 0<=ub, ub<=1} with the exact parameters ua, ub (closed interval: coincident / vertex-'
+    'sharing copies are detected only through 0 and 1), all other paths return false; both leaves invariant under argument '
+    'swap (ua<->ub); LineShape/MolecularShape2::intersects = any over the full component product (through the workspace '
+    'iterator helpers); all 16 Mul impls move components by T and keep radii.',
+    'NOT decided: polygon-level geometry (edge crossing <=> overlap for congruent convex polygons, parallel/aligned cases) and '
+    'the 1e-9 tolerance; floating-point rounding.',
+    'symbolic execution + polynomial normal form (exact predicates) + adaptor-chain recognition')
+
+reg('C17', True, 'other',
+    'CLAUSE: "never crashes". May-panic enumeration over everything reachable from from_operations / WyckoffSite::new / '
+    'get_wallpaper_group: the only panic-capable constructs are the three matrix writes transform[(row, col)]; col is a '
+    'constant < 3; row is the enumerate() counter over a Vec whose length is narrowed to [2,2] by interval refinement along the '
+    'branch edges of the two guards that dominate the loop, on a Vec that is never resized; every Result goes through `?`.',
+    'NOT decided: that every grammar string parses to the affine map it denotes (execution of a character state machine over '
+    'an infinite language — outside static analysis as defined for this task); no proxy rule is armed for it.',
+    'call-graph may-panic enumeration + dominator-based interval refinement of a guarded length')
